@@ -34,7 +34,9 @@ def plans(quick):
               ("v-d2-wide", dict(depth=2, MaxDets=2, Slots={1}, Confs={900, 800}, Feats={1, 2}), None),
               ("v-d3-wide", dict(depth=3, MaxDets=1, Feats={1, 2}), None),
               ("v-sim40", dict(depth=40, Sim=6, MaxObs=3, LifecycleOps=True, MaxIdle=1), {"num": 20, "depth": 41}),
-              ("v-batch-sim", dict(depth=7, Sim=6, Kind="batch", Scenes={1, 2}), {"num": 100, "depth": 8})]
+              # (a batch operation names a detection list for every scene: small alphabets keep the set of operations enumerable)
+              ("v-batch-sim", dict(depth=7, Sim=6, Kind="batch", Scenes={1, 2}, Feats={1, 2}, Quals={30, 90}, Confs={900}, MaxDets=1),
+               {"num": 100, "depth": 8})]
     return p
 
 
